@@ -131,6 +131,9 @@ func (app *App) unlockFile() {
 }
 
 func (app *App) baseContext() context.Context {
+	if vctx := verifBaseContext(app.config); vctx != nil {
+		return vctx
+	}
 	ctx, cancel := context.WithCancel(context.Background())
 	sigs := make(chan os.Signal, 1)
 	signal.Notify(sigs, syscall.SIGINT, syscall.SIGTERM)
@@ -2473,7 +2476,9 @@ func (app *App) Run() int {
 				if stateHandler == nil {
 					panic(fmt.Sprintf("unknown state: %s", app.state))
 				}
+				verifStateEnter(app.config, app.state)
 				nextState := stateHandler()
+				verifStateLeave(app.config, app.state, nextState)
 				if nextState == app.state {
 					break
 				}
